@@ -25,6 +25,30 @@ CLAIMS = {
             "Coq proof (byte-accounting invariant + pump lemma) + model/implementation correspondence + byte-balance oracle", "4 C13"),
 }
 
+CLAIMS.update({
+    "C16": ("proof",
+            "Theorems (all widths, both signednesses, all integers): byte form = big-endian two's complement and its inverse; is_valid reflects membership in the declared set; "
+            "a printed enumeration name is a declared member's (constant, or range name + zero-padded hex offset, offsets injective); by computation over the regenerated tables: every valid value of every "
+            "enumeration-kind type has such a name. int(), ==, hash, ordering and the ~30 operators are true of the model by definition, so they are decided by differential runs only "
+            "(implementation vs plain int). Tie: translator (tables) + Model/Ints.v vs implementation on exhaustive 8-bit (16-bit in thorough) and boundary/random 32/64-bit values; oracle vs the pinned tables.",
+            "Coq proof (arithmetic + reflection + computation over regenerated tables) + exhaustive/boundary correspondence", "4 C16"),
+    "C17": ("proof",
+            "Theorems: for ANY word size and mask list passing attr_ok (positive, pairwise disjoint, union = all ones) every bit position belongs to exactly one field, no field leaves the word, "
+            "every value is the union of its fields, the accessor loop terminates and returns the field right-aligned, a printed row shows exactly the field's bits; attr_ok holds for all 12 attribute "
+            "types of the regenerated tables (vm_compute). Tie: translator + Model/Attr.v vs implementation (accessors, pretty bit rows) on all 256 values of 8-bit types and walking/mask/random words.",
+            "Coq proof (bitwise lemmas, generic in the word size) + vm_compute over regenerated tables + correspondence", "4 C17"),
+    "C18": ("proof",
+            "Theorem: for all 2^32 codes with bit 7 or bit 8 set, and zero: text form = rendering of the specification's classification (written from the format rules), the bit rows carry the same "
+            "classification and partition the 32-bit word. Proof: dependence on the low 12 bits only (lemmas) + sweep of all 4096 residues by vm_compute, names from the regenerated tables vs the pinned ones. "
+            "Tie: translator (name tables) + Model/RC.v vs implementation on all 4096 low values x several reserved-bit patterns.",
+            "Coq proof (mod-4096 lemmas + exhaustive vm_compute sweep) + exhaustive correspondence", "4 C18"),
+    "C20": ("proof",
+            "Finite and complete: Tables.T (regenerated from /repo on every run) = Pinned.T by a decidable equality evaluated with vm_compute; coherent Tables.T = true (one layout per command code in each of the four maps, "
+            "named after it; <= 3 four-byte handles; lists directly follow an unsigned count; union selectors earlier and every valid value selects a member; reachable list-valued members sized), "
+            "each boolean check with a soundness lemma in the property's words. On a mismatch the check searches for a message that now decodes differently from the pinned layout.",
+            "translator + Coq computation (vm_compute) over the complete finite tables", "4 C20"),
+})
+
 PENDING_REASON = "check not built yet in this revision (work in progress; the property is applicable and planned, see DESIGN.md section 4)"
 
 
